@@ -134,6 +134,12 @@ class RulesStream(Stream):
             {'rule': ['Eq', {'T': [1, 2]}], 'what': [1, 2], 'inq': None},
             {'rule': ['CIDR', '192.168.2.0/24'], 'what': '192.168.2.56', 'inq': None},
             {'rule': ['Greater', 1], 'what': 'a', 'inq': None},
+        ] + [
+            # the grid of the string rules: empty / shorter / equal / longer text, both letter cases, case-fold-special
+            # letters - with and without ci (slicing, folding and lower-casing agree on plain ASCII only)
+            {'rule': [name, val, ci], 'what': w, 'inq': None}
+            for name in ('Equal', 'StartsWith', 'EndsWith', 'Contains') for ci in (False, True)
+            for val in ('', 'a', 'Ab', 'ß', 'ſt') for w in ('', 'a', 'xAb', 'Abx', 'AB', 'ß', 'ss', 'xſt', 'stx', 'ST')
         ]
 
     def generate(self, rng, tier):
